@@ -520,7 +520,16 @@ def call_module(it, fv, args, kwargs):
         c, a, b = args
         if not isinstance(c, SArr):
             if is_arr(a) or is_arr(b):
-                raise Unsupported('np.where scalar cond with arrays')
+                # scalar condition broadcast over array operands
+                if any(isinstance(x, SCompact) for x in (a, b)):
+                    raise Unsupported('np.where scalar cond with compaction')
+                cz = it.as_bool(c)
+                ga = npm.fz(a) if isinstance(a, SArr) else (lambda *ix: a)
+                gb = npm.fz(b) if isinstance(b, SArr) else (lambda *ix: b)
+                if isinstance(a, SArr) and isinstance(b, SArr):
+                    npm.shape_eq(ctx, a.shape, b.shape, 'np.where operand shapes')
+                shp = a.shape if isinstance(a, SArr) else b.shape
+                return npm.new_arr(ctx, shp, lambda *ix: zite(b2z(cz), ga(*ix), gb(*ix), fp), 'real', 'where')
             return zite(b2z(it.as_bool(c)), a, b, fp)
         ga = npm.fz(a) if isinstance(a, SArr) else (lambda *ix: a)
         gb = npm.fz(b) if isinstance(b, SArr) else (lambda *ix: b)
